@@ -12,7 +12,7 @@ ORACLES = [
 
 
 def run(res):
-    core.std_proof_coverage(res, "C02", extra_obligations=1)
+    core.std_proof_coverage(res, "C02", extra_obligations=2)
     l1.run(res, "C02", "pairpush", "Model.PairPush Model.PairPushOracle", "pp_model", "PP0", ORACLES,
            "PAIR/PUSH/PULL behaviour differs from the model (Model/PairPush.v)")
     # the shape Model/Wakeup.v assumes (cond = false), re-read from protocol/xpush/xpush.go on every run
@@ -24,6 +24,10 @@ def run(res):
     res.coverage["theorems"] += [n for n, _, _ in obl]
     res.coverage["generated_obligations"] = {n: ok for n, ok, _ in obl}
     nviol = len(res.violations) if hasattr(res, "violations") else 0
+    # PAIR has one peer at a time also when two connections arrive at the same instant: the check "already have a peer?" and the
+    # store of the peer happen in one critical section (check-then-act rule on the regenerated lock skeleton, Model/SplitCs.v)
+    from .c11 import run_split_subset
+    run_split_subset(res, "C02", ["protocol/xpair.", "protocol/xpair1.", "protocol/xpush.", "protocol/xpull."], "C02_gen_attach_check_and_store_atomic")
     # below the granularity of the histories: several goroutines sending on one PUSH / PAIR socket at the same instant, through real
     # sockets (harness/cmd/c11conc): exactly once, per-sender order, and no sender or queued message left behind
     from .c11 import run_concurrent
